@@ -178,10 +178,14 @@ func (conf *Config) Set(app string, key string, value any, fileRef *ref.File) er
 		}
 	}
 
+	// copied while the lock is held: the setters below run without it
+	setDynamic := conf.properties[app][key].Dynamic.SetDynamic
+	goFuncWrite := conf.properties[app][key].GoFunc.Write
+
 	switch {
-	case conf.properties[app][key].Dynamic.SetDynamic != nil:
+	case setDynamic != nil:
 		conf.mutex.Unlock()
-		exitNum, err := conf.properties[app][key].Dynamic.SetDynamic(value)
+		exitNum, err := setDynamic(value)
 		if err != nil {
 			return err
 		}
@@ -194,9 +198,9 @@ func (conf *Config) Set(app string, key string, value any, fileRef *ref.File) er
 		conf.mutex.Unlock()
 		return nil
 
-	case conf.properties[app][key].GoFunc.Write != nil:
+	case goFuncWrite != nil:
 		conf.mutex.Unlock()
-		err := conf.properties[app][key].GoFunc.Write(value)
+		err := goFuncWrite(value)
 		if err != nil {
 			return err
 		}
